@@ -537,6 +537,11 @@ func loc(fset *token.FileSet, pos token.Pos) string {
 	return " at " + fset.Position(pos).String()
 }
 
+// useRealBody is returned by an external that wants the function's real SSA
+// body interpreted instead (e.g. etcd raft.StartNode when the harness did not
+// register a node factory).
+type useRealBody struct{}
+
 // callSSA interprets a call to function fn with arguments args,
 // and lexical environment env, returning its result.
 // callpos is the position of the callsite.
@@ -552,8 +557,12 @@ func callSSA(i *interpreter, caller *frame, callpos token.Pos, fn *ssa.Function,
 			return nil
 		}
 		if ext := lookupExternal(fn, name); ext != nil {
-			i.noteStub(name)
-			return ext(fr, args)
+			r := ext(fr, args)
+			if _, real := r.(useRealBody); !real {
+				i.noteStub(name)
+				return r
+			}
+			// the model declined (no harness hook registered): interpret the real body
 		}
 		if fn.Blocks == nil && fn.Pkg != nil {
 			fn.Pkg.Build()
